@@ -283,7 +283,7 @@ func vfC20Run(t *testing.T, msgs []vfC20Msg, choose func(n int) int) (lit string
 				storej[fmt.Sprint(a)] = binary.BigEndian.Uint64(b)
 			}
 		}
-		lit = fmt.Sprintf("{| c_ops := [%s]; c_results := [%s]; c_store := [%s]; c_accepts := [%s] |}",
+		lit = fmt.Sprintf("{| c_ops := [%s]; c_results := [%s]; c_store := [%s]; c_accepts := [%s]; c_penalised := [] |}",
 			strings.Join(acts, "; "), strings.Join(resl, "; "), strings.Join(storel, "; "), strings.Join(accepts, "; "))
 		rec = map[string]any{"msgs": msgs, "schedule": sched, "results": resj, "store": storej, "accepts": accepts}
 	}()
